@@ -32,7 +32,7 @@ def flat(inputs):
 def conn_kinds(topo, sid, slots):
     ks = set()
     for e in topo['edges']:
-        if e['dst'] == sid and (('e', e['da'], f"{e['src']}.e") in slots):
+        if e['dst'] == sid and ((e.get('de', 'e'), e['da'], f"{e['src']}.{e.get('se', 'e')}") in slots):
             k = []
             if e.get('weak'):
                 k.append('weak')
@@ -111,7 +111,7 @@ def jobs(tier):
     q = tier == 'quick'
     cur = {t['name']: t for t in T.curated()}
     names = ['tb2', 'tbshift', 'tbloop', 'hyb2', 'hyb2pm', 'tb_ev', 'tb_hy', 'ev2', 'evloop', 'weaktb', 'grp_sib', 'grp_out',
-             'multi_tb', 'multi_shift', 'multi_shift_rev']
+             'multi_tb', 'multi_shift', 'multi_shift_rev', 'ent2x', 'ent2hy']
     three = ['chain3ev', 'fanin', 'tbchain3'] if q else ['chain3ev', 'chain3', 'fanin', 'fanout', 'tbchain3', 'loop3shift', 'weak3', 'nested', 'reenter']
     out = []
     for name in names + three:
